@@ -272,22 +272,51 @@ Lemma defaults_ok_sound : forall T, defaults_ok T = true ->
   p_state p = PDefault v ->
   Value.render_prop_default T (fuel_of T) (p_ty p) v = Defaults.ROk None \/
   exists e, Value.render_prop_default T (fuel_of T) (p_ty p) v = Defaults.ROk (Some e) /\
-            Value.expr_typed T (fuel_of T) e (p_ty p) = true.
+            default_typed_cfg default_variant_fixed T e (p_ty p) = true.
 Proof.
   intros T H d Hd np Hnp p v Hp Hs. unfold defaults_ok in H. rewrite forallb_forall in H.
   specialize (H d Hd). rewrite forallb_forall in H. specialize (H np Hnp).
-  rewrite forallb_forall in H. specialize (H p Hp). unfold prop_default_ok in H. rewrite Hs in H.
+  rewrite forallb_forall in H. specialize (H p Hp). unfold prop_default_ok, prop_default_ok_cfg in H. rewrite Hs in H.
   destruct (Value.render_prop_default T (fuel_of T) (p_ty p) v) as [[e|]| | |]; try discriminate H.
   - right. exists e. split; [reflexivity|exact H].
   - left. reflexivity.
 Qed.
 
-Lemma default_tuple1_sound : forall T, default_tuple1_ok T = true ->
+(* the rendering before fix 15ce314: no rendered default may construct a one-element tuple variant *)
+Lemma default_tuple1_prefix_sound : forall T, default_tuple1_ok_cfg false T = true ->
   forall d, In d (named_dets T) -> forall e, In e (rendered_defaults T d) ->
-  Value.expr_any (tuple1_variant_expr T) e = false.
+  Value.expr_any (tuple1_variant_expr_cfg false T) e = false.
 Proof.
-  intros T H d Hd e He. unfold default_tuple1_ok in H. rewrite forallb_forall in H. specialize (H d Hd).
+  intros T H d Hd e He. unfold default_tuple1_ok_cfg in H. rewrite forallb_forall in H. specialize (H d Hd).
   rewrite forallb_forall in H. specialize (H e He). apply negb_true_iff in H. exact H.
+Qed.
+
+Lemma expr_any_false : forall p, (forall e, p e = false) -> forall e, Value.expr_any p e = false.
+Proof.
+  intros p Hp. fix IH 1. intro e.
+  destruct e; simpl; rewrite Hp; simpl; try reflexivity; try (apply IH).
+  - revert es. fix go 1. intros [|x r]; [reflexivity|]. rewrite (IH x). simpl. apply go.
+  - revert es. fix go 1. intros [|x r]; [reflexivity|]. rewrite (IH x). simpl. apply go.
+  - revert es. fix go 1. intros [|x r]; [reflexivity|]. rewrite (IH x). simpl. apply go.
+  - revert kvs. fix go 1. intros [|[a b] r]; [reflexivity|]. rewrite (IH a), (IH b). simpl. apply go.
+  - revert fs. fix go 1. intros [|[n x] r]; [reflexivity|]. rewrite (IH x). simpl. apply go.
+  - revert es. fix go 1. intros [|x r]; [reflexivity|]. rewrite (IH x). simpl. apply go.
+  - revert fs. fix go 1. intros [|[n x] r]; [reflexivity|]. rewrite (IH x). simpl. apply go.
+  - revert es. fix go 1. intros [|x r]; [reflexivity|]. rewrite (IH x). simpl. apply go.
+Qed.
+
+(* since fix 15ce314 the arguments of every tuple-variant construction are the declared fields *)
+Lemma tuple1_variant_expr_fixed : forall T e, tuple1_variant_expr_cfg true T e = false.
+Proof.
+  intros T e. destruct e; try reflexivity. simpl. destruct (variant_payload T ty var) as [ts|]; [|reflexivity].
+  rewrite from_body_fixed_matches, ftys_eqb_refl. reflexivity.
+Qed.
+
+Lemma default_tuple1_fixed : forall T, default_tuple1_ok T = true.
+Proof.
+  intro T. unfold default_tuple1_ok, default_tuple1_ok_cfg, default_variant_fixed.
+  apply forallb_forall. intros d _. apply forallb_forall. intros e _.
+  rewrite (expr_any_false _ (tuple1_variant_expr_fixed T)). reflexivity.
 Qed.
 
 (* ------------------------------------------------------------------ prelude capture *)
@@ -335,7 +364,7 @@ Proof. intros. unfold wf_report, wf_module. apply filter_negb_nil. Qed.
    recorded finding, or a condition of the IR the converter (not modelled) is responsible for *)
 Definition residual_conjuncts : list conjunct :=
   [CModnames; CDefaultFns; CUntaggedSimple; CFromVariants; CDerefCycle; CTryFromString;
-   CAcyclic; CDeriveBounds; CSerdeRules; CSerdeDefault; CDefaults; CDefaultTuple1; CPreludeDefault; CPreludeVec;
+   CAcyclic; CDeriveBounds; CSerdeRules; CSerdeDefault; CDefaults; CPreludeDefault; CPreludeVec;
    CPreludeResult].
 
 (* C01_wf_from_parts: the judgment follows from
@@ -359,6 +388,7 @@ Proof.
   - apply variants_unique_sound. exact Hv.
   - apply idents_valid_from_C08; assumption.
   - apply from_tuple1_fixed.
+  - apply default_tuple1_fixed.
 Qed.
 
 (* what wf_module guarantees, Prop level (the statement of C01_wf_module_partial) *)
@@ -437,8 +467,18 @@ Definition witness (c : conjunct) : space :=
   | CPreludeResult => sp false (base ++ [(3, DNewtype (us "Ok") None 1 (CString None None (Some (us "^b+$"))))])
   end.
 
-Theorem known_classes_fail : forall c, c <> CFromTuple1 -> holds Sanitize.ascii_classes (witness c) c = false.
-Proof. intros c Hc. destruct c; try (vm_compute; reflexivity). exfalso. apply Hc. reflexivity. Qed.
+Theorem known_classes_fail : forall c, c <> CFromTuple1 -> c <> CDefaultTuple1 ->
+  holds Sanitize.ascii_classes (witness c) c = false.
+Proof.
+  intros c H1 H2. destruct c; try (vm_compute; reflexivity); exfalso; [apply H1|apply H2]; reflexivity.
+Qed.
+
+(* C01-16 (fixed by 15ce314): the pre-fix rendering is ill shaped on the witness, the current one is not *)
+Theorem default_tuple1_regression :
+  default_tuple1_ok_cfg false (witness CDefaultTuple1) = false /\
+  default_tuple1_ok (witness CDefaultTuple1) = true /\
+  defaults_ok (witness CDefaultTuple1) = true.
+Proof. repeat split; vm_compute; reflexivity. Qed.
 
 (* C01-6 (fixed by d9b019c): the pre-fix body is ill typed on the witness, the current one is not *)
 Theorem from_tuple1_regression :
